@@ -29,6 +29,7 @@ type Config struct {
 	Merge       map[string]bool // callees executed with path merging (must be statically pure)
 	Tier        int // 0 quick, 1 thorough (read by harnesses through nd.Tier/nd.Bound)
 	Trace       bool
+	NoIfConv    bool // disable if-conversion of side-effect-free diamonds (debugging)
 }
 
 // CE is a counterexample found on a path.
@@ -114,6 +115,7 @@ type MStats struct {
 	Steps        int64
 	MergedCalls  int
 	MergedPaths  int
+	IfConverted  int
 }
 
 func (m *Machine) abort(kind, format string, a ...any) {
